@@ -2,6 +2,11 @@
 
 package compiler
 
+import (
+	"github.com/smarthome-go/homescript/v3/homescript/errors"
+	pAst "github.com/smarthome-go/homescript/v3/homescript/parser/ast"
+)
+
 // Specification vocabulary and contracts checked by /verif/hvc (build tag
 // verif only; see /verif/DESIGN.md).
 
@@ -43,3 +48,111 @@ func VInstrWF(i Instruction) bool {
 	}
 	return true
 }
+
+// ---------------------------------------------------------------------------
+// Operator lowering (C01, C04)
+
+// VInfixOfOpcode: the source operator a binary instruction implements (the
+// inverse of the lowering table in arithmeticHelper). `!=` is lowered to
+// Eq; Not and has no instruction of its own.
+func VInfixOfOpcode(op Opcode) pAst.InfixOperator {
+	switch op {
+	case Opcode_Add:
+		return pAst.PlusInfixOperator
+	case Opcode_Sub:
+		return pAst.MinusInfixOperator
+	case Opcode_Mul:
+		return pAst.MultiplyInfixOperator
+	case Opcode_Div:
+		return pAst.DivideInfixOperator
+	case Opcode_Rem:
+		return pAst.ModuloInfixOperator
+	case Opcode_Pow:
+		return pAst.PowerInfixOperator
+	case Opcode_Shl:
+		return pAst.ShiftLeftInfixOperator
+	case Opcode_Shr:
+		return pAst.ShiftRightInfixOperator
+	case Opcode_BitOr:
+		return pAst.BitOrInfixOperator
+	case Opcode_BitAnd:
+		return pAst.BitAndInfixOperator
+	case Opcode_BitXor:
+		return pAst.BitXorInfixOperator
+	case Opcode_Eq:
+		return pAst.EqualInfixOperator
+	case Opcode_Lt:
+		return pAst.LessThanInfixOperator
+	case Opcode_Le:
+		return pAst.LessThanEqualInfixOperator
+	case Opcode_Gt:
+		return pAst.GreaterThanInfixOperator
+	case Opcode_Ge:
+		return pAst.GreaterThanEqualInfixOperator
+	}
+	return pAst.LogicalOrInfixOperator // no binary instruction
+}
+
+// VIsBinaryOpcode: the instructions VInfixOfOpcode is defined for.
+func VIsBinaryOpcode(op Opcode) bool {
+	switch op {
+	case Opcode_Add, Opcode_Sub, Opcode_Mul, Opcode_Div, Opcode_Rem, Opcode_Pow, Opcode_Shl, Opcode_Shr, Opcode_BitOr, Opcode_BitAnd, Opcode_BitXor, Opcode_Eq, Opcode_Lt, Opcode_Le, Opcode_Gt, Opcode_Ge:
+		return true
+	}
+	return false
+}
+
+// currFnOK: the function being compiled exists.
+func (self Compiler) currFnOK() bool {
+	m, ok := self.modules[self.currModule]
+	if !ok || m == nil {
+		return false
+	}
+	f, ok := m[self.currFn]
+	return ok && f != nil
+}
+
+// aligned: the source map has one span per instruction.
+func (self Compiler) aligned() bool {
+	return self.currFnOK() && len(self.CurrFn().Instructions) == len(self.CurrFn().SourceMap)
+}
+
+// emitted: the k-th instruction from the end of the current function (0 = last).
+func (self Compiler) emitted(k int) Instruction {
+	return self.CurrFn().Instructions[len(self.CurrFn().Instructions)-1-k]
+}
+
+func (self Compiler) emittedSpan(k int) errors.Span {
+	return self.CurrFn().SourceMap[len(self.CurrFn().SourceMap)-1-k]
+}
+
+func (self Compiler) codeLen() int { return len(self.CurrFn().Instructions) }
+
+/*@ func (self *Compiler) insert
+    serves C01, C08, C11
+    requires self.aligned()
+    ensures @aligned self.aligned() && self.CurrFn() == old(self.CurrFn())
+    ensures @appended self.codeLen() == old(self.codeLen())+1 && result == old(self.codeLen())
+    ensures @instruction self.emitted(0) == instruction && self.emittedSpan(0) == span
+    ensures @prefix-kept forall i in 0..old(self.codeLen()) :: self.CurrFn().Instructions[i] == old(self.CurrFn().Instructions[i]) && self.CurrFn().SourceMap[i] == old(self.CurrFn().SourceMap[i])
+@*/
+
+/*@ func (self *Compiler) arithmeticHelper
+    serves C01, C04, C08
+    requires self.aligned()
+    split op in 0..18
+    requires op <= pAst.GreaterThanEqualInfixOperator
+    requires op != pAst.LogicalOrInfixOperator && op != pAst.LogicalAndInfixOperator
+    ensures @aligned self.aligned() && self.CurrFn() == old(self.CurrFn())
+    ensures @one-instruction op != pAst.NotEqualInfixOperator ==> self.codeLen() == old(self.codeLen())+1 && VIsBinaryOpcode(self.emitted(0).Opcode()) && VInfixOfOpcode(self.emitted(0).Opcode()) == op && self.emittedSpan(0) == span
+    ensures @not-equal op == pAst.NotEqualInfixOperator ==> self.codeLen() == old(self.codeLen())+2 && self.emitted(1).Opcode() == Opcode_Eq && self.emitted(0).Opcode() == Opcode_Not && self.emittedSpan(0) == span && self.emittedSpan(1) == span
+@*/
+
+/*@ func (self *Compiler) compilePrefixOp
+    serves C01, C04, C08
+    requires self.aligned()
+    ensures @aligned self.aligned() && self.CurrFn() == old(self.CurrFn())
+    ensures @neg op == ast.MinusPrefixOperator ==> self.codeLen() == old(self.codeLen())+1 && self.emitted(0).Opcode() == Opcode_Neg && self.emittedSpan(0) == span
+    ensures @not op == ast.NegatePrefixOperator ==> self.codeLen() == old(self.codeLen())+1 && self.emitted(0).Opcode() == Opcode_Not && self.emittedSpan(0) == span
+    ensures @some op == ast.IntoSomePrefixOperator ==> self.codeLen() == old(self.codeLen())+1 && self.emitted(0).Opcode() == Opcode_Some && self.emittedSpan(0) == span
+@*/
